@@ -96,6 +96,9 @@ func (g *tgen) Tree(depth int) amf0.Amf0 {
 }
 
 func (g *tgen) key(i int) string {
+	if i == 0 && g.n(12) == 0 {
+		return "" // an empty property name is a legal AMF0 key (only key-less end markers end an object)
+	}
 	if g.n(3) == 0 {
 		return fmt.Sprintf("%s%d", g.str(6), i) + "k"
 	}
